@@ -8,7 +8,7 @@ meson and write ONE record per NinjaBackend.generate() call:
    'added': n add_build calls, 'check_outputs': n calls, 'collisions': [[path, outs of the element], ...],
    'all_outputs_ok': bool|None, 'all_outputs_diff': {...},       # invariant after a successful generate
    'targets': [[id, type, build_by_default, [build-dir relative outputs]], ...],   # meson's own target table
-   'tests': [[name, is_benchmark, [[target id, [outputs]], ...]], ...]}
+   'tests': [[name, is_benchmark, [[target id, [outputs], via], ...]], ...]}   # via: exe|arg|dep|local-program-<role>
 
 `rsp_threshold` (None = leave) sets ninjabackend.rsp_threshold in the child, the same knob as the
 MESON_RSP_THRESHOLD environment variable (which is read at import time, i.e. before the fork).
@@ -108,13 +108,17 @@ def make_monitor(rsp_threshold: T.Optional[int] = None) -> T.Callable[[T.Callabl
                 for bench, lst in ((False, b.get_tests()), (True, b.get_benchmarks())):
                     for t in lst:
                         pre = []
-                        cands = [t.exe] + list(t.cmd_args) + list(t.depends)
-                        for c in cands:
+                        cands = [('exe', t.exe)] + [('arg', a) for a in t.cmd_args] + [('dep', d) for d in t.depends]
+                        for role, c in cands:
+                            via = role
+                            if type(c).__name__ == 'LocalProgram' and hasattr(c, 'program'):
+                                c = c.program    # find_program() result overridden with a built target
+                                via = 'local-program-' + role
                             if hasattr(c, 'target') and hasattr(c, 'output') and hasattr(c.target, 'get_outputs'):
                                 c = c.target     # CustomTargetIndex
                             if hasattr(c, 'get_outputs') and hasattr(c, 'get_id') and hasattr(c, 'build_by_default'):
                                 try:
-                                    pre.append([c.get_id(), outs_of(c)])
+                                    pre.append([c.get_id(), outs_of(c), via])
                                 except Exception:
                                     pass
                         tests.append([str(t.name), bench, pre])
